@@ -463,6 +463,7 @@ def handleNewView (w : W) (nvm : NVMsg) : W :=
   else if !validateVotes w.n hd.height hd.view hd.votes then w
   else if nvm.pp.header.view != hd.view then w
   else if nvm.pp.header.height != hd.height then w
+  else if nvm.pp.header.inst != w.n.cfg.inst then w      -- the embedded proposal must be of this instance
   else if !lockOk w.n nvm then w
   else adoptNewView w nvm
 
